@@ -240,24 +240,28 @@ theorem exec_out_is_finish (env : Env) (m m' : M) (op : Op) (d : Delivered) (pus
     (h : exec T env m op = .out m' d push) : ∃ e, op = .finish e ∧ execFinish T m e = .out m' d push := by
   cases op with
   | finish e => exact ⟨e, rfl, h⟩
-  | handle e => simp only [exec, execHandle] at h; split at h <;> cases h
-  | chain e => simp only [exec, execChain] at h; split at h <;> (try split at h) <;> cases h
+  | handle e => simp only [exec, execHandle] at h; repeat' split at h
+                all_goals cases h
+  | chain e => simp only [exec, execChain] at h; repeat' split at h
+               all_goals cases h
   | act a =>
-      cases a <;> simp only [exec, execAct, execCreate, execWc] at h <;> (try split at h) <;> (try split at h) <;> cases h
-  | rstmt r => simp only [exec, execRStmt] at h; split at h <;> cases h
+      cases a <;> simp only [exec, execAct, execCreate, execWc] at h <;> (repeat' split at h) <;> cases h
+  | rstmt r => simp only [exec, execRStmt] at h; repeat' split at h
+               all_goals cases h
   | rop o => cases o <;> simp only [exec, execROp] at h <;> cases h
   | dop o => cases o <;> simp only [exec, execDOp] at h <;> cases h
   | phase p => simp only [exec] at h; cases h
   | enterTry p => simp only [exec] at h; cases h
   | pop p =>
-      cases p <;> simp only [exec, execPOp, execDiscover, execBuild] at h <;> (try split at h) <;> (try split at h) <;> cases h
+      cases p <;> simp only [exec, execPOp, execDiscover, execBuild] at h <;> (repeat' split at h) <;> cases h
   | fin ps => simp only [exec] at h; cases h
   | reraise => simp only [exec] at h; cases h
   | raiseNow => simp only [exec] at h; cases h
   | cstep c => cases c <;> simp only [exec, execCStep] at h <;> cases h
   | yield => simp only [exec] at h; cases h
   | setInfo i n => simp only [exec] at h; cases h
-  | afterLocate => simp only [exec, execAfterLocate] at h; split at h <;> (try split at h) <;> cases h
+  | afterLocate => simp only [exec, execAfterLocate] at h; repeat' split at h
+                   all_goals cases h
 
 theorem finish_mirrors (m m' : M) (e : Event) (d : Delivered) (push : List Op)
     (h : execFinish T m e = .out m' d push) : d.sensor = true → d.status = some d.state := by
@@ -275,64 +279,64 @@ theorem finish_mirrors (m m' : M) (e : Event) (d : Delivered) (push : List Op)
 
 def Mirrors (d : Delivered) : Prop := d.sensor = true → d.status = some d.state
 
+theorem unwind_go (c : Cfg) (op : Op) (ops : List Op) : ∃ c', unwind c op ops = .go c' ∧ c'.acc = c.acc := by
+  cases op <;> exact ⟨_, rfl, rfl⟩
+
+/-- one runner step either halts with the accumulated deliveries (plus at most one new one) or goes on with them -/
+theorem next1_acc (env : Env) (c : Cfg) (hacc : ∀ d ∈ c.acc, Mirrors d) :
+    match next1 T env c with
+    | .halt r => ∀ d ∈ r.out, Mirrors d
+    | .go c' => ∀ d ∈ c'.acc, Mirrors d := by
+  unfold next1
+  cases hops : c.ops with
+  | nil => simp only; intro d hd; exact hacc d (List.mem_reverse.1 hd)
+  | cons op ops =>
+      simp only
+      cases hr : c.raising with
+      | true =>
+          simp only [↓reduceIte]
+          obtain ⟨c', h1, h2⟩ := unwind_go c op ops
+          rw [h1]; simp only; rw [h2]; exact hacc
+      | false =>
+          simp only [Bool.false_eq_true, ↓reduceIte]
+          cases hex : exec T env c.m op with
+          | next m' push => simp only [applyRes]; exact hacc
+          | raise m' => simp only [applyRes]; exact hacc
+          | out m' d' push =>
+              obtain ⟨e, _, hf⟩ := exec_out_is_finish env c.m m' op d' push hex
+              have hm := finish_mirrors c.m m' e d' push hf
+              have hall : ∀ x ∈ d' :: c.acc, Mirrors x := by
+                intro x hx; rcases List.mem_cons.1 hx with rfl | hx
+                · exact hm
+                · exact hacc x hx
+              simp only [applyRes, suspend]
+              cases hs : c.stop with
+              | none => exact hall
+              | some k =>
+                  cases k with
+                  | zero => intro d hd; exact hall d (List.mem_reverse.1 hd)
+                  | succ k => exact hall
+          | pause m' push =>
+              simp only [applyRes, suspend]
+              cases hs : c.stop with
+              | none => exact hacc
+              | some k =>
+                  cases k with
+                  | zero => intro d hd; exact hacc d (List.mem_reverse.1 hd)
+                  | succ k => exact hacc
+
 theorem runCfg_mirrors (env : Env) : ∀ (fuel : Nat) (c : Cfg), (∀ d ∈ c.acc, Mirrors d) →
     ∀ d ∈ (runCfg T env fuel c).out, Mirrors d := by
   intro fuel
   induction fuel with
   | zero => intro c hacc d hd; simp only [runCfg, List.mem_reverse] at hd; exact hacc d hd
   | succ n ih =>
-      intro c hacc d hd
-      simp only [runCfg] at hd
+      intro c hacc
+      have h := next1_acc env c hacc
+      simp only [runCfg]
       cases hn : next1 T env c with
-      | halt r =>
-          rw [hn] at hd
-          simp only [next1] at hn
-          cases hops : c.ops with
-          | nil =>
-              rw [hops] at hn; simp only at hn; cases hn
-              simp only [List.mem_reverse] at hd; exact hacc d hd
-          | cons op ops =>
-              rw [hops] at hn; simp only at hn
-              by_cases hr : c.raising = true
-              · simp only [hr, if_true, unwind] at hn; split at hn <;> cases hn
-              · simp only [hr] at hn
-                cases hex : exec T env c.m op with
-                | next m' push => rw [hex] at hn; simp only [applyRes] at hn; cases hn
-                | raise m' => rw [hex] at hn; simp only [applyRes] at hn; cases hn
-                | out m' d' push =>
-                    rw [hex] at hn; simp only [applyRes, suspend] at hn
-                    split at hn <;> cases hn
-                    simp only [List.mem_reverse, List.mem_cons] at hd
-                    rcases hd with rfl | hd
-                    · obtain ⟨e, _, hf⟩ := exec_out_is_finish env c.m m' op d push hex
-                      exact finish_mirrors c.m m' e d push hf
-                    · exact hacc d hd
-                | pause m' push =>
-                    rw [hex] at hn; simp only [applyRes, suspend] at hn
-                    split at hn <;> cases hn
-                    simp only [List.mem_reverse] at hd; exact hacc d hd
-      | go c' =>
-          rw [hn] at hd
-          refine ih c' ?_ d hd
-          simp only [next1] at hn
-          cases hops : c.ops with
-          | nil => rw [hops] at hn; simp only at hn; cases hn
-          | cons op ops =>
-              rw [hops] at hn; simp only at hn
-              by_cases hr : c.raising = true
-              · simp only [hr, if_true, unwind] at hn; split at hn <;> (cases hn; exact hacc)
-              · simp only [hr] at hn
-                cases hex : exec T env c.m op with
-                | next m' push => rw [hex] at hn; simp only [applyRes] at hn; cases hn; exact hacc
-                | raise m' => rw [hex] at hn; simp only [applyRes] at hn; cases hn; exact hacc
-                | out m' d' push =>
-                    rw [hex] at hn; simp only [applyRes, suspend] at hn
-                    obtain ⟨e, _, hf⟩ := exec_out_is_finish env c.m m' op d' push hex
-                    have hm := finish_mirrors c.m m' e d' push hf
-                    split at hn <;> cases hn <;> (intro x hx; rcases List.mem_cons.1 hx with rfl | hx; exact hm; exact hacc x hx)
-                | pause m' push =>
-                    rw [hex] at hn; simp only [applyRes, suspend] at hn
-                    split at hn <;> cases hn <;> exact hacc
+      | halt r => rw [hn] at h; exact h
+      | go c' => rw [hn] at h; exact ih c' h
 
 /-- **any interleaving** (calls parked at any delivery or await while others run, any number of tasks, any length):
 whenever the client is handed an event and the status sensor exists, its text is `to_string` of the state the client
@@ -360,7 +364,7 @@ theorem conc_delivery_mirrors (s : MState) (i : Input) : ∀ d ∈ (step T s i).
 
 /-- the alphabet and the closed set are not trivial: 205 states, 6 of them CONNECTED, every connect path is a call -/
 example : reachList.length ≥ 100 ∧ (reachList.filter fun m => m.state == .CONNECTED).length ≥ 1 ∧
-    (allBase T).length ≥ 60 ∧ (allPaths T).length = 20 := by decide +kernel
+    (allBase T).length ≥ 60 ∧ (allPaths T).length = 14 := by decide +kernel
 
 /-- a history that reaches CONNECTED, loses the pings, gets them back (which resets) and connects again -/
 def tour : List Base :=
@@ -375,7 +379,7 @@ example : Hist (init T true false) tour ∧
        .CLIENT_HAS_PING_SENSOR, .CONNECTION_GOT_CHANNEL, .CONNECTION_GOT_CONFIG_FILES,
        .CONNECTION_INITIAL_DATA_BLOCK_REQUEST, .CONNECTION_SPA_COMPLETE, .CLIENT_FACADE_IS_READY, .CONNECTION_FINISHED,
        .RUNNING_PING_RECEIVED, .RUNNING_PING_MISSED, .CLIENT_FACADE_TEARDOWN, .RUNNING_PING_NO_RESPONSE,
-       .RUNNING_PING_RECEIVED, .RUNNING_SPA_DISCONNECTED,
+       .RUNNING_SPA_DISCONNECTED, .RUNNING_PING_RECEIVED,
        .LOCATING_STARTED, .LOCATING_DISCOVERED_SPA, .LOCATING_FINISHED,
        .CLIENT_HAS_RECONNECT_BUTTON, .CONNECTION_STARTED, .CONNECTION_GOT_FIRMWARE_VERSION, .CLIENT_HAS_PING_SENSOR,
        .CONNECTION_GOT_CHANNEL, .CONNECTION_GOT_CONFIG_FILES, .CONNECTION_INITIAL_DATA_BLOCK_REQUEST,
